@@ -141,6 +141,19 @@ def run_api(ctx, L, icu, idx, ntriples):
             kind = t % 4
             info = dict(first=cps(s), second=cps(u), same_normal_form=same, kind=['block', 'frame', 'item', 'packet'][kind])
             ctx.count('api_triples')
+            if t % 5 == 0:
+                # the parser's own duplicate detection (names within one loop header, block codes of one document)
+                from .. import parsing
+                text = '#\\#CIF_2.0\ndata_b%s\nloop_\n_%s _%s\n1 2\ndata_b%s\n' % (s, s, u, u)
+                res = parsing.parse(L, text.encode('utf-8', 'surrogatepass'), parsing.make_opts(), 'new', 'accept')
+                codes = sorted(e[0] for e in res.errors)
+                if res.cif:
+                    L.destroy(res.cif)
+                want = [11, 41] if same else []
+                if res.rc != CIF_OK or codes != want:
+                    ctx.violation('match:parser:duplicates:%s' % ('missed' if same else 'false-hit'),
+                                  'document with names / block codes %s and %s (normal forms %s): cif_parse -> %d, errors %r, expected %r' % (cps(s), cps(u), 'equal' if same else 'differ', res.rc, codes, want), info)
+                ctx.count('parser_duplicate_cases')
             if kind == 0:
                 code1, code2 = 'b' + s, 'b' + u
                 rc, h = L.create_block(cif, code1)
@@ -372,7 +385,7 @@ def run(env):
             samples=res.samples, scalar_sweep_exhaustive=True, scalar_values=res.count('scalars'),
             normalizations=res.count('normalizations'), pair_strings=res.count('pair_strings'),
             srclen_cases=res.count('srclen_cases'), api_triples=res.count('api_triples'),
-            table_key_cases=res.count('table_key_cases'), validity_cases=res.count('validity_cases'),
+            table_key_cases=res.count('table_key_cases'), parser_duplicate_cases=res.count('parser_duplicate_cases'), validity_cases=res.count('validity_cases'),
             icu_unicode_version=sorted(res.sets.get('unicode_version', ())), crashes=res.crashes),
         violations=res.violations, inconclusive=inconclusive,
         assumptions=['ICU itself is trusted; the oracle uses unorm2_normalize and ucasemap_utf8FoldCase, the library '
